@@ -975,27 +975,6 @@ func (s *c05Sys) checkCycles(exhausted bool) []mc.Violation {
 		if p.phase != "pending" {
 			continue
 		}
-		// (3a) the nomination filter, asked directly for every exhausted allocate-once reservation
-		for _, r := range s.rsvs {
-			if !(r.def.isAllocOnce() && len(s.assigned(r)) > 0) {
-				continue
-			}
-			rInfo := s.cache.getReservationInfoByUID(r.def.uid)
-			if rInfo == nil || r.placed == "" {
-				continue
-			}
-			s.hd.snapshot, s.hd.sched = s.snapshot(), frameworkext.NewFakeScheduler()
-			cs := framework.NewCycleState()
-			var st *fwktype.Status
-			if ps := mc.Guard(func() { st = s.pl.FilterNominateReservation(ctx, cs, p.obj, rInfo, r.placed) }); ps != "" {
-				viol = append(viol, s.v("scheduling-path-panics|FilterNominateReservation", ps))
-				continue
-			}
-			c05Count("allocate_once_nominate_filter_asked", 1)
-			if st.IsSuccess() {
-				viol = append(viol, s.v("allocate-once-nominated|FilterNominateReservation", fmt.Sprintf("FilterNominateReservation(%s, %s) succeeds although %s is allocate-once and %v is assigned to it", p.def.name, r.def.name, r.def.name, c05PodNames(s.assigned(r)))))
-			}
-		}
 		// (3b)/(4) the scheduling cycle
 		s.hd.snapshot, s.hd.sched = s.snapshot(), frameworkext.NewFakeScheduler()
 		cs := framework.NewCycleState()
@@ -1056,8 +1035,34 @@ func (s *c05Sys) checkCycles(exhausted bool) []mc.Violation {
 					node, r.def.name, p.def.name, c05PodNames(s.assigned(r)), len(nrs.matchedOrIgnored))))
 			}
 		}
+		// (3a) the nomination filter, asked directly (as the nominator does, inside the cycle) for every exhausted
+		// allocate-once reservation of a node the cycle has a state for
+		for _, r := range s.rsvs {
+			if !(r.def.isAllocOnce() && len(s.assigned(r)) > 0) {
+				continue
+			}
+			rInfo := s.cache.getReservationInfoByUID(r.def.uid)
+			if rInfo == nil || r.placed == "" {
+				continue
+			}
+			if state.nodeReservationStates[r.placed] == nil {
+				c05Count("allocate_once_nominate_filter_skipped_no_cycle_state", 1)
+				continue
+			}
+			var nst *fwktype.Status
+			if ps := mc.Guard(func() { nst = s.pl.FilterNominateReservation(ctx, cs, p.obj, rInfo, r.placed) }); ps != "" {
+				viol = append(viol, s.v("scheduling-path-panics|FilterNominateReservation", ps))
+				continue
+			}
+			c05Count("allocate_once_nominate_filter_asked", 1)
+			if nst.IsSuccess() {
+				viol = append(viol, s.v("allocate-once-nominated|FilterNominateReservation", fmt.Sprintf("FilterNominateReservation(%s, %s) succeeds although %s is allocate-once and %v is assigned to it", p.def.name, r.def.name, r.def.name, c05PodNames(s.assigned(r)))))
+			}
+		}
 	}
-	_ = exhausted
+	if exhausted {
+		c05Count("states_with_exhausted_allocate_once", 1)
+	}
 	return viol
 }
 
